@@ -46,15 +46,22 @@ static void op_create(pv_rng* r, unsigned arg, bool armed) {
     uint8_t script[19]; pv_randbytes(r, script, 19); pv_set_rand_script(script, 19);
     uint64_t t = pv_randn(r, 6) ? PV_EPOCH + pv_rand64(r) % (1024 * PV_STEP) : pv_rand64(r) >> pv_randn(r, 40);
     pv_w->time_value = t;
+    /* a clock moves: should creation read it more than once, the readings differ (a third of the creations); the model then takes
+     * the reading the reported birthday belongs to - it must belong to one of them */
+    pv_w->time_script_n = 0;
+    if (pv_randn(r, 3) == 0) { pv_w->time_script[0] = t; pv_w->time_script[1] = pv_randn(r, 2) ? t + pv_randn(r, (uint32_t)(2 * PV_STEP)) : PV_EPOCH + pv_rand64(r) % (1024 * PV_STEP); pv_w->time_script[2] = pv_randn(r, 2) ? UINT64_MAX : PV_EPOCH - 1 - pv_randn(r, 100000); pv_w->time_script_n = 3; }
     if (armed) pv_w->fail_countdown = 1;
     polyseed_data* s = NULL; int st = pv_api_create(arg, &s);
-    pv_w->fail_countdown = 0; pv_set_rand_prng();
+    pv_w->fail_countdown = 0; pv_set_rand_prng(); pv_w->time_script_n = 0;
+    int nreads = pv_w->time_reads; uint64_t seen[8]; memcpy(seen, pv_w->time_seen, sizeof seen);
     check_tags("create"); seq(0x10 + (arg & 7)); PV_COUNT("ops.create", 1);
     unsigned f = arg & 7;
     int want = (f & ~M_mask) ? POLYSEED_ERR_UNSUPPORTED : armed ? POLYSEED_ERR_MEMORY : POLYSEED_OK;
     if (st != want) { vio("create", "status", "create(0x%x) under mask %u%s -> %s, model %s", arg, M_mask, armed ? " (allocator failing)" : "", pv_status_name(st), pv_status_name(want)); if (st == POLYSEED_OK) pv_api_free(s); return; }
     if (st != POLYSEED_OK) return;
     pv_mseed m; memcpy(m.secret, script, 19); m.secret[18] &= 0x3f; m.birthday = pv_m_birthday_of(t); m.features = f;
+    if (nreads > 1) { uint64_t B = pv_api_get_birthday(s); bool found = false; for (int q = 0; q < nreads && q < 8; ++q) if (B == pv_m_birthday_time(pv_m_birthday_of(seen[q]))) { m.birthday = pv_m_birthday_of(seen[q]); found = true; break; }
+        if (!found) { vio("create", "birthday", "the clock was read %d times (%llu, %llu, ...); the birthday %llu belongs to none of the readings", nreads, (unsigned long long)seen[0], (unsigned long long)seen[1], (unsigned long long)B); pv_api_free(s); return; } }
     put(i, s, &m); observe_slot(i, "create", true); g_state_changed = true;
 }
 static void op_load(pv_rng* r, bool armed) {
